@@ -23,6 +23,7 @@ EXPLANATION = (
     "structurally. Nothing is executed."
     " Third session: (artim-run-state) only Timer.__init__/start/stop/restart may change whether a timer is running - a getter or the timeout setter that restarts a stopped ARTIM timer makes Evt18 arrive in a state without a transition; (artim-configured) borrowed from C08's timeout propagation."
     " Fifth round: (closed-not-invalid) a connection that closes inside a PDU is Evt17, never Evt19 (borrowed from C02 / C03); (abort-sources) an A-ABORT PDU with an undefined source still converts to an A-ABORT indication; (connect-failure) a failed connect is Evt17 in Sta4; (invalid-pdu) borrowed from C01's evaluated decoders."
+    ' Sixth round: (send-failure) AssociationSocket.send() evaluated: a failed write queues exactly one Evt17, close() followed; (event-sources) every `return True` of _is_transport_event passes _read_pdu_data() or socket.close(), the raw socket is read nowhere else in the provider.'
 )
 
 
